@@ -23,7 +23,8 @@ def two_builds(prop):
         return run_cs_property(prop, tier, [Campaign(prop, "plain"), Campaign(prop, "plain-noslack", cases=n2)], assumptions=ASSUME_GENERIC, dev=dev)
     return f
 
-PROPS = {"C01": c01, "C02": c02, "C03": two_builds("C03"), "C04": two_builds("C04"), "C08": two_builds("C08")}
+PROPS = {"C01": c01, "C02": c02, "C03": two_builds("C03"), "C04": two_builds("C04"), "C08": two_builds("C08"),
+         "C05": lambda tier, dev: run_cs_property("C05", tier, [Campaign("C05", "plain")], assumptions=ASSUME_GENERIC, dev=dev)}
 
 def main():
     ap = argparse.ArgumentParser()
